@@ -70,8 +70,9 @@ Fixpoint irun (s : istate) (es : list iev) : list N :=
   end.
 
 (* ---- glue ---- *)
-Definition issuer_of (n : N) : issuer := match n with 0 => Trusted | 1 => OtherCA | _ => SelfSigned end.
-Definition ccert_of (n : N) : ccert := match n with 0 => CNone | 1 => CTrusted | _ => COther end.
+(* server certificates 3, 4, 5: the trusted one again over other key algorithms *)
+Definition issuer_of (n : N) : issuer := match n with 0 | 3 | 4 | 5 => Trusted | 1 => OtherCA | _ => SelfSigned end.
+Definition ccert_of (n : N) : ccert := match n with 0 => CNone | 1 | 4 => CTrusted | _ => COther end.
 Definition b2n (b : bool) : N := if b then 1 else 0.
 
 Fixpoint parse_iev (c : list N) : list iev :=
